@@ -2,7 +2,11 @@
 
 package atree
 
-import "github.com/fxamacker/cbor/v2"
+import (
+	"errors"
+
+	"github.com/fxamacker/cbor/v2"
+)
 
 // Shared harness building blocks: test doubles for caller-supplied components
 // and helpers to construct states directly.
@@ -59,3 +63,5 @@ func (t vTypeInfo) Copy() TypeInfo                       { return t }
 func vhNewBasicStorage() *BasicSlabStorage {
 	return NewBasicSlabStorage(nil, nil, nil, nil)
 }
+
+func errorsAs(err error, target any) bool { return errors.As(err, target) }
